@@ -485,6 +485,9 @@ type replayFile struct {
 	Case     json.RawMessage `json:"case"`
 }
 
+// Replaying reports whether this process replays one saved case (VERIF_REPLAY) instead of generating.
+func Replaying() bool { return os.Getenv("VERIF_REPLAY") != "" }
+
 func replayCase(name string) (json.RawMessage, bool, bool) {
 	p := os.Getenv("VERIF_REPLAY")
 	if p == "" {
